@@ -450,7 +450,8 @@ def run(chk, opts):
     chk.assumptions += [
         "NumPy backend only",
         "exact tier: integer SPD Gram matrices with 1-3 unknowns (cond <= 34, plus the [[19,9],[9,19]] reproducer), integer right-hand sides",
-        "solutions compared at 1e-5 (SolTol) with the exact rational minimiser; measured tier judged by KKT residuals <= 5e-5 (cond <= 60)",
+        "solutions are logged to 12 decimals and compared with the exact rational minimiser at 1e-10 (active_set, admm: direct solves) / 2e-6 (hals at tol=1e-16 or exact=True, fista with its 1e-8 floor) -- named from what the unchanged solvers achieve; measured tier judged by KKT residuals <= 5e-5 (cond <= 60)",
+        "far starts: 1e4 x / 1e5 x random positive and 2^17 on the complement of the solution's support, for hals (4000 sweeps, a few with exact=True), fista and active_set",
         "magnitude: problems are also posed in other units (design * 2^a, data * 2^b, a, b in {-40,-20,0,30}; float32 with a = -15 in the measured tier); "
         "options that are absolute by documentation (fista/hals epsilon, active_set tol) are scaled with the units -- the documented absolute defaults "
         "(fista epsilon=1e-8 floor, active_set tol=1e-7 on the gradient) are NOT exercised in small units",
